@@ -216,6 +216,24 @@ class G:
             self.hit('if-else' if e else 'if'); return If(c, t, e)
         if depth > 0 and k < .88 and self.o['loops']:
             return self.loop(sc, depth, ret_ty)
+        if in_loop and self.o['arrays'] and k < .905:
+            # a declaration that executes on every iteration must yield a fresh zero instance each time:
+            # read an element of a freshly declared 2-D array / struct-free aggregate, then dirty it
+            name = self.fresh()
+            dims = r.choice([(2, 2), (2, 3), (3, 2), (2,)])
+            elem = r.choice([INT, FLOAT]) if self.o['floats'] else INT
+            ty = Arr(elem, dims)
+            v = Var(name, ty, 'local')
+            sc.vars.append(v)
+            e = v
+            for d in dims: e = Index(e, Lit(r.randrange(d), INT))
+            tgt = self.assignable(elem, sc)
+            out = [Decl(name, ty, None)]
+            if tgt is not None and not (isinstance(tgt, Index) and tgt.base is v):
+                out.append(ExprS(Assign(tgt, Bin('+', tgt, e))))
+            out.append(ExprS(Assign(e, Bin('+', e, self.lit(elem)))))
+            self.hit('fresh-aggregate-in-loop')
+            return out
         if in_loop and k < .93:
             self.hit('break' ); return If(self.expr(INT, sc, 1), Break())
         if in_loop and k < .97:
